@@ -258,12 +258,14 @@ func checkScen(c ScenCase, o *vf.Obs) error {
 	defer mu.Unlock()
 	var smu sync.Mutex
 	authSeq := int64(0)
+	issuedTo := map[int]int64{} // sequence number of the Auth call in the server's log -> number of the token it was given
 	tg.ResetScript(func(call *target.GCall) target.GResp {
 		r := target.GResp{Code: codes.OK, Hello: "h", Items: []int64{1}, OrderID: 1}
 		if call.Method == "Auth" {
 			smu.Lock()
 			authSeq++
 			n := authSeq
+			issuedTo[call.Seq] = n // concurrent Auth calls may be logged and answered in different orders
 			smu.Unlock()
 			r.Token = fmt.Sprintf("tok-%d-%d", n, n*7919)
 			r.UserID = 1000 + n
@@ -318,15 +320,13 @@ func checkScen(c ScenCase, o *vf.Obs) error {
 		token string
 		uid   int64
 	}
-	// the script hands out tokens in arrival order of Auth calls: recompute them from the call log
-	n := int64(0)
+	// what the script handed out to each Auth call of the log
 	issued := map[int]resp{}
-	for _, call := range calls {
-		if call.Method == "Auth" {
-			n++
-			issued[call.Seq] = resp{fmt.Sprintf("tok-%d-%d", n, n*7919), 1000 + n}
-		}
+	smu.Lock()
+	for seq, n := range issuedTo {
+		issued[seq] = resp{fmt.Sprintf("tok-%d-%d", n, n*7919), 1000 + n}
 	}
+	smu.Unlock()
 	rowOf := map[string]int{}
 	for i := 0; i < c.Rows; i++ {
 		rowOf[fmt.Sprintf("login%d", i)] = i
